@@ -2,7 +2,7 @@
    Pinned statements only; proofs in STF/Proofs/Confirm.v.  [confirm] is the model of SealedState::confirm
    (src/state.rs), [so_ed25519 k m sig] the Ed25519 verification oracle, [total_votes]/[votes] the
    StakeSet functions (lib/tip911-stakeset). *)
-From MelVerif Require Import STF.Model STF.Proofs.Confirm.
+From MelVerif Require Import STF.Model STF.Proofs.Confirm STF.Proofs.Votes.
 Open Scope N_scope.
 
 (* exact characterisation: confirmed iff every signature in the proof is valid for this header hash and the
@@ -48,3 +48,14 @@ Theorem C14_threshold_exact : forall total present,
   (total / 3 * 2 + total mod 3 * 2 / 3 <? present) = (2 * total <? 3 * present).
 Proof. exact threshold_exact. Qed.
 Print Assumptions C14_threshold_exact.
+
+(* ---- the two-thirds test compares a part with the whole: voting power is a partition of the active stake *)
+Theorem C14_a_keys_votes_are_part_of_the_total : forall st epoch k, votes st epoch k <= total_votes st epoch.
+Proof. exact votes_le_total. Qed.
+Print Assumptions C14_a_keys_votes_are_part_of_the_total.
+
+(* a consensus proof is a map keyed by public key: what it presents is at most the total, whatever the stakes *)
+Theorem C14_presented_votes_are_part_of_the_total : forall s proof,
+  NoDup (map fst proof) -> present_votes s proof <= total_votes (s_stakes s) (s_height s / STAKE_EPOCH).
+Proof. exact present_votes_le_total_nodup. Qed.
+Print Assumptions C14_presented_votes_are_part_of_the_total.
